@@ -2,14 +2,15 @@
 """Run the repository's baseline suite (hooks off) on a scratch worktree of /repo's working tree
 and compare the passing set with /root/.vp/BASELINE.json.  Usage: tools/baseline.py [--head]"""
 import json, os, subprocess, sys, tempfile, shutil, xml.etree.ElementTree as ET
+SRC = sys.argv[1] if len(sys.argv) > 1 else '/repo'
 base = json.load(open('/root/.vp/BASELINE.json'))
 want = set(base['stable_pass'])
 wt = tempfile.mkdtemp(prefix='holpy_base_')
 try:
     # copy the working tree (tracked files incl. uncommitted edits)
-    subprocess.check_call('cd /repo && git ls-files -z | rsync -a --from0 --files-from=- /repo/ %s/' % wt, shell=True)
+    subprocess.check_call('cd %s && git ls-files -z | rsync -a --from0 --files-from=- %s/ %s/' % (SRC, SRC, wt), shell=True)
     # untracked data files that the suite may read
-    subprocess.call('cd /repo && git ls-files -z --others --exclude-standard | rsync -a --from0 --files-from=- /repo/ %s/' % wt, shell=True)
+    subprocess.call('cd %s && git ls-files -z --others --exclude-standard | rsync -a --from0 --files-from=- %s/ %s/' % (SRC, SRC, wt), shell=True)
     xmlf = os.path.join(wt, 'junit.xml')
     env = dict(os.environ); env.pop('HOLPY_VERIF', None); env['PYTHONDONTWRITEBYTECODE'] = '1'
     p = subprocess.run('/venv/bin/python -m pytest -ra -q -p no:cacheprovider --timeout=900 '
